@@ -676,6 +676,10 @@ def stepRest (d : DW) (line : String) : DW × String :=
         | (w', some id) => ({ d with env := some { e with w := w', rew := id } }, "ok")
         | (_, none) => (d, "raise"))
      | _, _ => (d, "bad-op"))
+  | ["edreset"] => (match d.env with
+     -- `env.dispatcher.reset()` (not `env.reset()`): the dispatcher and every subscriber start over, the environment object is untouched
+     | some e => ({ d with env := some { e with w := e.w.reset } }, "ok")
+     | none => (d, "bad-op"))
   | ["esched"] => (match d.env with
      | some e => (d, "sched " ++ " | ".intercalate (e.w.s.sched.map fun ms => " ".intercalate (ms.map (fmtSOp e.w.cfg.I))))
      | none => (d, "bad-op"))
@@ -770,6 +774,21 @@ def stepRest (d : DW) (line : String) : DW × String :=
        | (fw', some id) => ({ d with fw := fw' }, toString id)
        | (fw', none) => ({ d with fw := fw' }, "raise"))
     | _, _ => (d, "bad-op")
+  | ["fresn", b, rm, rj] =>
+    -- `ResidualGraphUpdater(dispatcher, graph, subscribe=False, …)`: its IsCompletedObserver is obtained the ordinary way
+    -- (create_or_get_observer: subscribed); the updater itself waits for `fsub`
+    match parseBuilder b with
+    | some bb =>
+      (match d.fw.constructResidual (build bb d.fw.cfg.I) (rm == "1") (rj == "1") with
+       | (fw', some id) => ({ d with fw := (fw'.unsubscribe id).1 }, toString id)
+       | (fw', none) => ({ d with fw := fw' }, "raise"))
+    | none => (d, "bad-op")
+  | ["fsub", k] =>
+    -- `dispatcher.subscribe(observer)`: appended to the subscriber list
+    (match (if k == "last" then some (d.fw.heap.length - 1) else k.toNat?) with
+     | some id => if id < d.fw.heap.length && !d.fw.subs.contains id then ({ d with fw := { d.fw with subs := d.fw.subs ++ [id] } }, "ok")
+                  else (d, "raise")
+     | none => (d, "bad-op"))
   | ["fres", b, rm, rj] =>
     match parseBuilder b with
     | some bb =>
@@ -793,6 +812,12 @@ def stepAll (d : DW) (line : String) : DW × String :=
   | "filter" :: _ =>
     let (w', out) := step d.w line
     ({ d with w := w', fw := { d.fw with cfg := w'.cfg } }, out)
+  | ["peek", j, p, m] =>
+    -- a look-ahead on a deep copy of the dispatcher (`copy.deepcopy(dispatcher).dispatch(...)`): the reply is what the dispatch
+    -- would give, nothing of the original changes
+    let (_, out) := step d.w ("disp " ++ j ++ " " ++ p ++ " " ++ m)
+    (d, out)
+  | ["xform"] => (d, "ok")       -- instance transformations applied to the instance produce NEW instances: nothing changes here
   | ["disp", j, p, m] =>
     let (w', out) := step d.w line
     match j.toNat?, p.toNat? with
@@ -805,6 +830,11 @@ def stepAll (d : DW) (line : String) : DW × String :=
   | ["reset"] =>
     let (w', out) := step d.w line
     ({ d with w := w', fw := d.fw.reset }, out)
+  | ["q", "unsched_observer"] =>
+    -- the harness reads `create_or_get_observer(UnscheduledOperationsObserver)`: from the first such query on, the dispatcher
+    -- has that observer among its subscribers
+    let (w', out) := step d.w line
+    ({ d with w := w', fw := d.fw.getUnscheduled.1 }, out)
   | cmd :: r :: _ =>
     -- `MostWorkRemainingScorer.__call__`: on its first use with a dispatcher it gets a DurationObserver with job features
     -- through create_or_get_observer (an existing one is reused) and - because its condition tests for DurationObserver -
